@@ -489,6 +489,9 @@ def cap(x, hi=2_000_000_000):
 REPRESENTATIONS = ("c", "fortran", "strided", "readonly", "c", "int", "list")
 
 
+_BUFFERS = {}
+
+
 def represent(a, kind):
     """The same array VALUE in a different in-memory representation.  The properties quantify over values; a
     library function must not care whether an array is C- or Fortran-ordered, a strided view into a larger
@@ -497,6 +500,15 @@ def represent(a, kind):
     import numpy as np
 
     x = np.array(a, dtype=float)
+    if kind == "buffer":
+        # ONE preallocated array object per shape, refilled in place for every call: what a caller does who re-uses a
+        # work buffer for the next snapshot.  Only for arguments handed straight to a library call (nothing else may
+        # keep a reference to the buffer).  A result cached by the IDENTITY of its argument is stale on the next call.
+        buf = _BUFFERS.get(x.shape)
+        if buf is None:
+            buf = _BUFFERS[x.shape] = np.empty(x.shape, dtype=float)
+        buf[...] = x
+        return buf
     if kind == "fortran" and x.ndim >= 2:
         return np.asfortranarray(x)
     if kind == "strided" and x.ndim >= 1:
